@@ -12,7 +12,9 @@ for name in sorted(os.listdir(os.path.join(ROOT, "seeded"))):
     m = json.load(open(p))
     c = m.get("confirmation", {})
     chk = c.get("check") or {}
-    if not chk:
+    if chk.get("stale"):
+        verdict = "STALE: " + chk["stale"] + " (" + (m.get("note_head") or "see meta.json") [:160] + ")"
+    elif not chk:
         verdict = "not run"
     elif chk.get("exit") == 1 and chk.get("violation_lines"):
         weak = all("no-failing-input-found" in l for l in chk["violation_lines"])
